@@ -59,6 +59,7 @@ type queryInfo struct {
 	classB       bool // >= 2 tag groups
 	classC       bool // groups in range were created under different shard keys of the measurement (ALTER ... SHARDKEY)
 	classD       bool // regex source over measurements with different shard key / SHARDS settings
+	classH       bool // full_series hint, shard key defined, series carries tags beyond the shard key
 	hasOr        bool
 	hasField     bool
 	hasTime      bool
@@ -69,6 +70,7 @@ type queryInfo struct {
 	mappedShards int
 	shardsInRng  int // shards of all groups the time range overlaps
 	groupsInRng  int
+	hint         bool   // full_series hint
 	skipped      string // reason the soundness check was not applied
 }
 
@@ -97,7 +99,7 @@ func viol(format string, a ...any) error { return &violation{fmt.Sprintf(format,
 
 // skipClasses: known-finding classes whose soundness check is skipped (reported to the caller instead).
 type runOpts struct {
-	skipA, skipB, skipC, skipD bool
+	skipA, skipB, skipC, skipD, skipH bool
 }
 
 // runCase executes a case. Returns a *violation when the property is broken, a *harnessError when the case is not
@@ -394,6 +396,17 @@ func (cl *cluster) checkQuery(text string, stored []storedRow, o runOpts) (*quer
 	}
 	orig := influxql.CloneExpr(sel.Condition)
 	shapeOf(orig, qi, true)
+	// /*+ full_series */: the condition names one series by its complete tag set; only rows of exactly that series are asked for
+	var exact map[string]string
+	for _, h := range sel.Hints {
+		if h.String() == influxql.FullSeriesQuery {
+			exact = map[string]string{}
+			if !collectEqualities(orig, exact) {
+				return nil, herr("query %q: full_series hint with a condition that is not an AND of tag equalities", text)
+			}
+			qi.hint = true
+		}
+	}
 
 	mr, err := cl.mapQuery(text)
 	if err != nil {
@@ -475,7 +488,30 @@ func (cl *cluster) checkQuery(text string, stored []storedRow, o runOpts) (*quer
 	}
 	qi.mappedShards = len(mappedAll)
 
-	if (qi.classA && o.skipA) || (qi.classB && o.skipB) || (qi.classC && o.skipC) || (qi.classD && o.skipD) {
+	if exact != nil {
+		var key []string
+		if dbi := cl.data.Database(dbName); dbi != nil && len(dbi.ShardKey.ShardKey) > 0 {
+			key = dbi.ShardKey.ShardKey
+		} else if len(msts) > 0 {
+			if mi, err := cl.data.Measurement(dbName, rpName, msts[0]); err == nil {
+				for i := range mi.ShardKeys {
+					if len(mi.ShardKeys[i].ShardKey) > 0 {
+						key = mi.ShardKeys[i].ShardKey
+					}
+				}
+			}
+		}
+		if len(key) > 0 {
+			same := len(key) == len(exact)
+			for _, k := range key {
+				if _, ok := exact[k]; !ok {
+					same = false
+				}
+			}
+			qi.classH = !same
+		}
+	}
+	if (qi.classA && o.skipA) || (qi.classB && o.skipB) || (qi.classC && o.skipC) || (qi.classD && o.skipD) || (qi.classH && o.skipH) {
 		qi.skipped = "known-class"
 		return qi, nil
 	}
@@ -494,6 +530,14 @@ func (cl *cluster) checkQuery(text string, stored []storedRow, o runOpts) (*quer
 			ok, err := evalCond(orig, r, mi)
 			if err != nil {
 				return qi, herr("query %q: evaluator: %v", text, err)
+			}
+			if ok && exact != nil {
+				ok = len(exact) == len(r.tags)
+				for k, v := range exact {
+					if rv, has := r.tags[k]; !has || rv != v {
+						ok = false
+					}
+				}
 			}
 			if !ok {
 				continue
@@ -749,4 +793,26 @@ func cmpOrdered(op influxql.Token, c int) (bool, error) {
 		return c >= 0, nil
 	}
 	return false, fmt.Errorf("operator %s", op)
+}
+
+// collectEqualities: condition is an AND (parentheses allowed) of tag = 'value' atoms.
+func collectEqualities(e influxql.Expr, into map[string]string) bool {
+	switch x := e.(type) {
+	case *influxql.ParenExpr:
+		return collectEqualities(x.Expr, into)
+	case *influxql.BinaryExpr:
+		switch x.Op {
+		case influxql.AND:
+			return collectEqualities(x.LHS, into) && collectEqualities(x.RHS, into)
+		case influxql.EQ:
+			ref, ok := x.LHS.(*influxql.VarRef)
+			lit, ok2 := x.RHS.(*influxql.StringLiteral)
+			if !ok || !ok2 {
+				return false
+			}
+			into[ref.Val] = lit.Val
+			return true
+		}
+	}
+	return false
 }
